@@ -5,12 +5,6 @@ Import ListNotations.
 Open Scope N_scope.
 
 (* ------------------------------------------------------------------------------------------ reading at offsets *)
-Lemma at_app_l i (b d : bytes) : (i < length b)%nat -> at_ i (b ++ d) = at_ i b.
-Proof. intro H. unfold at_. apply app_nth1; assumption. Qed.
-
-Lemma rd32_at_app_l i (b d : bytes) : (i + 3 < length b)%nat -> rd32_at i (b ++ d) = rd32_at i b.
-Proof. intro H. unfold rd32_at. rewrite !at_app_l by lia. reflexivity. Qed.
-
 Lemma hdr_app b d p : hdr b = Some p -> hdr (b ++ d) = Some p.
 Proof.
   unfold hdr. destruct (Nat.leb_spec 8 (length b)) as [H|H]; [|discriminate].
